@@ -1,7 +1,7 @@
 """C08 — the live topic state and the stored state never diverge."""
 from props import topic_common as tc
 
-KINDS = ["NewGrp", "Sub", "Leave", "SetSelf", "SetOther", "DelSub", "SetDesc", "Pub", "Note", "DelMsg", "Unload", "Reload"]
+KINDS = ["NewGrp", "Sub", "Leave", "SetSelf", "SetOther", "DelSub", "SetDesc", "Pub", "Note", "DelMsg", "Unload", "Reload", "Conn"]
 BASE = ["NewGrp", "Sub", "Leave", "SetSelf", "SetOther", "Pub", "Note", "Unload"]
 
 
